@@ -662,21 +662,14 @@ def check_cat_axis(ctx, rep):
         rep.incomplete('C10.K', '*', '', f"only {n} CatParameter constructions found")
 
 
-def run(ctx, rep):
-    rep.explanation = (
-        "Every call of a tensor reduction in the evaluation methods of the density / model / transform / parameter classes and in the likelihood kernels is "
-        "classified: names an axis (fine), element-wise two-argument max/min (fine), operand provably free of sample dimensions (shape-derived, constants, index "
-        "ranges: fine), boolean reduction used only as a branch condition (chooses a code path, no value is mixed: listed), frozen table entry (reason printed), or "
-        "a whole-tensor reduction of a value derived from an argument or attribute — a violation: for batched input it folds all samples into one number."
-    )
-    rep.rule('C10.D', "no whole-tensor reduction (no axis named) of a value that can carry a sample dimension in densities, models, transforms, derived parameters and kernels")
-    rep.not_decided += ["which broadcasts are right when only some parameters are batched", "S == K coincidences", "shape-dependent reduction of the joint density",
-                        "that unsupported shape combinations raise", "reductions along a wrong but named axis (see C01, C05, C06, C08, C20 for the instances decided there)"]
+def check_whole_reductions(ctx, rep, only=None):
     self_check()
     n_fn = n_red = 0
     used_table = set()
     for mname, m in sorted(ctx.prog.modules.items()):
         if not any(mname.startswith(p) or mname == p.rstrip('.') for p in SCOPE_PACKAGES):
+            continue
+        if only is not None and not only(mname):
             continue
         fns = []
         for cname, cnode in m.classes.items():
@@ -726,11 +719,29 @@ def run(ctx, rep):
                         f"{qual.split('.')[-2]}.{qual.split('.')[-1]}: `{txt[:80]}` reduces over every axis of a value derived from the method's inputs; evaluated with parameters "
                         f"that carry a sample dimension it folds all samples into one number, so the value for sample s depends on the other samples")
     rep.analysed.update({'functions_scanned': n_fn, 'reductions_without_axis': n_red, 'table_entries_used': len(used_table), 'table_entries': len(TABLE)})
+    if only is not None:
+        if n_fn < 5:
+            raise AnalysisError(f"only {n_fn} evaluation methods scanned")
+        return n_red
     if n_fn < 300:
         raise AnalysisError(f"only {n_fn} evaluation methods scanned")
     stale = set(TABLE) - used_table
     for qual, txt in sorted(stale):
         rep.undecided('C10.D', f"table::{qual}::{txt[:40]}", '', 'frozen table entry no longer matches any construct (the table must be re-confirmed)')
+    return n_red
+
+
+def run(ctx, rep):
+    rep.explanation = (
+        "Every call of a tensor reduction in the evaluation methods of the density / model / transform / parameter classes and in the likelihood kernels is "
+        "classified: names an axis (fine), element-wise two-argument max/min (fine), operand provably free of sample dimensions (shape-derived, constants, index "
+        "ranges: fine), boolean reduction used only as a branch condition (chooses a code path, no value is mixed: listed), frozen table entry (reason printed), or "
+        "a whole-tensor reduction of a value derived from an argument or attribute — a violation: for batched input it folds all samples into one number."
+    )
+    rep.rule('C10.D', "no whole-tensor reduction (no axis named) of a value that can carry a sample dimension in densities, models, transforms, derived parameters and kernels")
+    rep.not_decided += ["which broadcasts are right when only some parameters are batched", "S == K coincidences", "shape-dependent reduction of the joint density",
+                        "that unsupported shape combinations raise", "reductions along a wrong but named axis (see C01, C05, C06, C08, C20 for the instances decided there)"]
+    check_whole_reductions(ctx, rep)
     rep.rule('C10.J', "the joint density classifies each component's value against that component's own sample shape and adds components along the last axis only")
     rep.rule('C10.P', "in evaluation methods, axes of values that can carry sample dimensions are addressed from the end (no axis index >= 1 counted from the front)")
     rep.rule('C10.A', "no element-wise operation combines a value that keeps the trailing event axis ([S, 1]) with one that dropped it ([S]) — an [S, S] outer combination of samples")
